@@ -43,7 +43,7 @@ CHECKS = {
          "Every flow that writes records and every hand-built record over all combinations of optional fields is stored with a real AEAD storage wrapper into a recording store; each stored byte string is unwrapped with the same wrapper to learn the secrets it protects, and no secret (private keys in PKCS8 and raw form, node nonce, marshaled creation time) may occur in any byte string handed to Store; loading without or with another wrapper must fail, round trips must be exact, and every sealed field moved into another record of the same type must fail to open.",
          "Two known findings (retained previous keys stored in clear) are listed in known_findings.json. Substring search on >= 8-byte secrets.", "6/C12", "E4"),
  "C13": ("fault_enumeration", "exhaustive single (thorough: double) deviation enumeration over every storage call of every flow (E3) on the real code",
-         "Each of 17 flows is first run fault-free to count its storage calls; then for every call position and each of three error kinds the flow is re-run from a fresh clone with that call failing without effect (thorough: every pair of positions as well). An error must come without credentials / token / certificates / roots; a success must be reflected in storage; a node record created from a token implies the token record is gone; a failed call leaves every existing node record byte-identical.",
+         "Each of 19 flows is first run fault-free to count its storage calls; then for every call position and each of three error kinds the flow is re-run from a fresh clone with that call failing without effect (thorough: every pair of positions as well). An error must come without credentials / token / certificates / roots; a success must be reflected in storage; a node record created from a token implies the token record is gone; a failed call leaves every existing node record byte-identical.",
          "Storage calls are atomic (message-granular interface, no torn writes). Faults that turn a refusal into a durable success are not judged (the property allows a fully reflected result).", "6/C13", "E3"),
  "C14": ("fault_enumeration", "bounded-exhaustive enumeration of hostile ClientHello shapes and raw inputs (E4) and of connection drops at every handshake step (E3) against the real listener",
          "Each case (ALPN lists over the library prefixes with malformed / truncated / oversized / duplicated / reordered values, raw non-TLS bytes, honest handshakes cut after the k-th client write or read) is sent to a real InterceptingListener on a loopback socket, with and without a base TLS configuration; Accept runs under recover and must not panic, its error must be temporary, and an honest Dial on the same listener must authenticate afterwards; closing the base listener must give a non-temporary error.",
